@@ -38,12 +38,25 @@ type Case struct {
 	// alike; every tolerance is relative to the scaled case's own extent, so an absolute epsilon in the
 	// code under test (|area| < 1e-10 is zero, segments shorter than 1e-9 are skipped) fails here.
 	K int `json:"k"`
+	// Alias (op "aliased"): a value whose members share memory with each other (alias_test.go).
+	Alias *AliasSpec `json:"alias,omitempty"`
+	// Spec (op "large"): a rung of the size ladder, rebuilt procedurally (large_test.go).
+	Spec *LargeSpec `json:"spec,omitempty"`
 	// Layout of the value handed to orb ("shared": all point slices are consecutive windows of one
 	// buffer, "spare": every slice has spare capacity holding sentinels, "" / "plain": cap == len; outer
 	// slices get spare sentinel entries too). The model works on the independent original; after every
 	// orb call the whole argument (coordinate arrays incl. spare capacity, every entry of every outer
 	// slice incl. spare capacity) must be bit-identical: the measures must not write to their argument.
 	Layout string `json:"layout,omitempty"`
+}
+
+// noteSpare counts (never fails on) a write into the spare capacity of the value handed to orb: a
+// fact about memory layout, not a contradiction of the property (soundness rule of round L). A change
+// of an element within len is a failure and is reported by Guard.Check.
+func noteSpare(gd *layout.Guard) {
+	if gd.SpareNote() != "" {
+		stats.Class("layout-note: spare capacity of the argument was written (counted, not a violation)")
+	}
 }
 
 // layoutName names a Case.Layout value. The layout travels as a parameter (no package state: the
@@ -129,6 +142,9 @@ func finite(v float64) bool { return !math.IsNaN(v) && !math.IsInf(v, 0) }
 func compareMeasure(lay string, g orb.Geometry, m measure, what string) error {
 	// orb sees a laid-out copy; g itself (what the model m was computed from) is never handed over
 	lg, gd := layout.LayOut(g, lay)
+	if lay == asIs {
+		lg, gd = g, nil // the caller's own (aliased) value; the model was computed from an independent copy
+	}
 	c, a := planar.CentroidArea(lg)
 	if err := gd.Check(); err != nil {
 		return fmt.Errorf("%s: CentroidArea(%s) [%s layout]: %v", what, gen.Canon(g), layoutName(lay), err)
@@ -162,7 +178,7 @@ func compareMeasure(lay string, g orb.Geometry, m measure, what string) error {
 		if !finite(c[0]) || !finite(c[1]) || math.Abs(c[0]-m.c[0]) > m.tolC || math.Abs(c[1]-m.c[1]) > m.tolC {
 			return fmt.Errorf("%s: centroid = %v, exact (%v, %v) (tolerance %g)", what, c, m.c[0], m.c[1], m.tolC)
 		}
-		if r, ok := g.(orb.Ring); ok && isConvex(r) {
+		if r, ok := g.(orb.Ring); ok && len(r) <= 130 && isConvex(r) {
 			b := boundOf(r)
 			t := m.tolC // the same tolerance as the centroid itself (1e-9*scale in the exact domain)
 			if c[0] < b.Min[0]-t || c[0] > b.Max[0]+t || c[1] < b.Min[1]-t || c[1] > b.Max[1]+t {
@@ -181,6 +197,7 @@ func compareMeasure(lay string, g orb.Geometry, m measure, what string) error {
 	if err := gd.Check(); err != nil {
 		return fmt.Errorf("%s: Length(%s) [%s layout]: %v", what, gen.Canon(g), layoutName(lay), err)
 	}
+	noteSpare(gd)
 	if m.length == 0 {
 		if l != 0 {
 			return fmt.Errorf("%s: length = %v, want 0", what, l)
@@ -371,11 +388,14 @@ func checkMeasure(c Case) error {
 		unclosed := n == len(r)
 		// 256-bit length of every segment of the closed cycle; an unclosed spelling that starts at
 		// vertex k lists all of them except the one that ends (forward) or starts (reversed) at k
-		for i := 0; i < n; i++ {
+		for i := 0; i < n && unclosed; i++ {
 			L, _, _ := lineAcc([]orb.Point{cyc[i], cyc[(i+1)%n]})
 			segLen = append(segLen, f64(L))
 		}
 		for k := 0; k < n; k++ {
+			if n > 130 && k != 0 && k != 1 && k != n/2 && k != n-1 {
+				continue // long rings (size ladder): four start vertices instead of all n
+			}
 			of, or := -1, -1
 			if unclosed {
 				of, or = (k-1+n)%n, k
@@ -399,7 +419,7 @@ func checkMeasure(c Case) error {
 			}
 		}
 		return nil
-	} else {
+	} else if len(allPoints(g)) <= 4096 { // the re-spelled variants of very large values are left to the smaller cases
 		_, isColl := g.(orb.Collection)
 		rs := -1 // reversing rings negates ring areas; polygons take absolute values
 		switch g.(type) {
@@ -431,6 +451,16 @@ func checkMeasure(c Case) error {
 
 // ---------------------------------------------------------------- distance
 
+// onVertex: q is one of the listed vertices of g's boundary (points of multi-points included).
+func onVertex(g orb.Geometry, q orb.Point) bool {
+	for _, p := range allPoints(g) {
+		if p == q {
+			return true
+		}
+	}
+	return false
+}
+
 func distScale(g orb.Geometry, q orb.Point) float64 {
 	return math.Max(maxAbs(allPoints(g)), math.Max(math.Abs(q[0]), math.Abs(q[1])))
 }
@@ -441,11 +471,15 @@ func distScale(g orb.Geometry, q orb.Point) float64 {
 // a point interior to a segment.
 func distTol(exact, scale float64) float64 { return 1e-9*exact + 1e-14*scale }
 
-func checkDistance(c Case) error {
-	g := c.G.V
-	lay := c.Layout
-	lg, gd := layout.LayOut(g, lay) // orb sees lg, the model sees g
-	for _, qp := range c.Q {
+func checkDistance(c Case) error { return checkDistanceOf(c.G.V, nil, c.Layout, c.Q) }
+
+// checkDistanceOf: the model reads g; orb is handed arg, or (arg == nil) a copy of g laid out as lay.
+func checkDistanceOf(g, arg orb.Geometry, lay string, qs []gen.P) error {
+	lg, gd := arg, (*layout.Guard)(nil)
+	if arg == nil {
+		lg, gd = layout.LayOut(g, lay) // orb sees lg, the model sees g
+	}
+	for _, qp := range qs {
 		q := qp.Pt()
 		dm, err := distModel(g, q)
 		if err != nil {
@@ -468,6 +502,14 @@ func checkDistance(c Case) error {
 		exact := sqrtRat(dm.min)
 		scale := distScale(g, q)
 		tol := distTol(exact, scale)
+		// exact where exactness is attainable: a query that IS a vertex of the boundary (of a lattice
+		// input, any power-of-two unit) is at parameter 0 or 1 of its segment, every intermediate is
+		// exact under any evaluation order: the distance must be exactly 0, not just within tolerance
+		if onVertex(g, q) && isLattice(append([]orb.Point{q}, allPoints(g)...), 1<<20) {
+			if _, isBound := g.(orb.Bound); !isBound && d != 0 {
+				return fmt.Errorf("DistanceFrom(%s, %v) = %v for a query that is a vertex of the boundary, want exactly 0", gen.Canon(g), q, d)
+			}
+		}
 		if !(math.Abs(d-exact) <= tol) {
 			return fmt.Errorf("DistanceFrom(%s, %v) = %v, exact %v (tolerance %g)", gen.Canon(g), q, d, exact, tol)
 		}
@@ -498,6 +540,7 @@ func checkDistance(c Case) error {
 			}
 		}
 	}
+	noteSpare(gd)
 	return nil
 }
 
@@ -552,6 +595,22 @@ func inDomain(c Case) bool {
 }
 
 func checkCase(c Case) error {
+	if c.Op == "aliased" {
+		if c.Alias == nil {
+			return fmt.Errorf("harness: aliased case without a spec")
+		}
+		if !inDomain(Case{Q: append(append([]gen.P{}, c.Alias.Buf...), c.Q...)}) || c.K < -64 || c.K > 64 {
+			return nil
+		}
+		c.Q = c.scaled().Q
+		return checkAliased(c)
+	}
+	if c.Op == "large" {
+		if c.Spec == nil {
+			return fmt.Errorf("harness: large case without a spec")
+		}
+		return checkLarge(c)
+	}
 	if !inDomain(c) || c.K < -64 || c.K > 64 {
 		return nil
 	}
